@@ -13,16 +13,20 @@ import (
 	"encoding/json"
 	"fmt"
 	"os"
+	"runtime"
 	"sort"
 	"strings"
 	"sync"
 	"sync/atomic"
+	"syscall"
 	"testing"
 	"testing/synctest"
 	"time"
 
 	"storj.io/drpc"
 	"storj.io/drpc/drpcpool"
+
+	"verif/vf"
 )
 
 // one step of a behaviour: the label of the action and what the specification demands afterwards
@@ -42,37 +46,59 @@ type c15Step struct {
 	Pn    string   // panic
 	Rt    []string // routes taken so far
 	An    []string // property statements falsified so far
+	Pk    c15Park  // the operation that holds Pool.mu after the step and the user code it is parked in (fine grain)
 }
 
-func (s *c15Step) UnmarshalJSON(b []byte) error {
-	var raw []json.RawMessage
-	if err := json.Unmarshal(b, &raw); err != nil {
+// c15Park: [operation, method, connection] ("", "", 0 when the lock is free)
+type c15Park struct {
+	Op, At string
+	C      int
+}
+
+func (p *c15Park) UnmarshalJSON(b []byte) error {
+	dst := []any{&p.Op, &p.At, &p.C}
+	if err := json.Unmarshal(b, &dst); err != nil {
 		return err
 	}
-	if len(raw) != 15 {
-		return fmt.Errorf("step with %d fields", len(raw))
-	}
-	s.R = strings.Trim(string(raw[4]), `"`)
-	dst := []any{&s.A, &s.K, &s.C, &s.E, nil, &s.OC, &s.OL, &s.Kin, &s.KC, &s.KL, &s.Calls, &s.Tm, &s.Pn, &s.Rt, &s.An}
-	for i, d := range dst {
-		if d == nil {
-			continue
-		}
-		if err := json.Unmarshal(raw[i], d); err != nil {
-			return fmt.Errorf("field %d: %v", i, err)
-		}
+	if len(dst) != 3 {
+		return fmt.Errorf("park with %d fields", len(dst))
 	}
 	return nil
 }
 
+// (one pass: encoding/json decodes an array element by element into the pointers a []any holds)
+func (s *c15Step) UnmarshalJSON(b []byte) error {
+	var r json.RawMessage
+	dst := []any{&s.A, &s.K, &s.C, &s.E, &r, &s.OC, &s.OL, &s.Kin, &s.KC, &s.KL, &s.Calls, &s.Tm, &s.Pn, &s.Rt, &s.An, &s.Pk}
+	n := len(dst)
+	if err := json.Unmarshal(b, &dst); err != nil {
+		return err
+	}
+	if len(dst) != n {
+		return fmt.Errorf("step with %d fields", len(dst))
+	}
+	s.R = strings.Trim(string(r), `"`)
+	return nil
+}
+
+// Label names the step; a step that leaves the operation inside the critical section says in which user code.
 func (s *c15Step) Label() string {
+	parked := ""
+	if s.R == "parked" {
+		parked = fmt.Sprintf(" [holds Pool.mu, in c%d.%s()]", s.Pk.C, s.Pk.At)
+	}
 	switch s.A {
 	case "Put":
-		return fmt.Sprintf("Put(k%d,c%d)", s.K, s.C)
+		return fmt.Sprintf("Put(k%d,c%d)", s.K, s.C) + parked
 	case "Take":
-		return fmt.Sprintf("Take(k%d)", s.K)
+		return fmt.Sprintf("Take(k%d)", s.K) + parked
 	case "PoolClose":
-		return "PoolClose"
+		return "PoolClose" + parked
+	case "Return": // (Labels says which method returns)
+		if s.R == "parked" {
+			return fmt.Sprintf("c%d returns", s.C) + parked
+		}
+		return fmt.Sprintf("c%d returns [operation ends, result %s]", s.C, s.R)
 	case "TimerFire", "ExpiryClose", "ExpiryRemove":
 		return fmt.Sprintf("%s(e%d:c%d)", s.A, s.E, s.C)
 	}
@@ -83,6 +109,7 @@ type c15Beh struct {
 	Cap    int       `json:"cap"`
 	Kcap   int       `json:"kcap"`
 	Exp    bool      `json:"exp"`
+	Fine   bool      `json:"fine"` // the user code called under Pool.mu is a step of its own
 	Steps  []c15Step `json:"steps"`
 	Term   bool      `json:"term"` // the behaviour ends in a terminal state of the specification
 	Final  []string  `json:"final"`
@@ -93,6 +120,9 @@ func (b *c15Beh) Labels() []string {
 	l := make([]string, len(b.Steps))
 	for i := range b.Steps {
 		l[i] = b.Steps[i].Label()
+		if b.Steps[i].A == "Return" && i > 0 {
+			l[i] = strings.Replace(l[i], " returns", "."+b.Steps[i-1].Pk.At+"() returns", 1)
+		}
 	}
 	return l
 }
@@ -147,13 +177,29 @@ type c15CB struct {
 	gate  chan struct{}
 }
 
+// c15OpEv is what the goroutine running a pool method tells the director: it is parked in user code
+// that the pool called (fine grain), or the method has returned.
+type c15OpEv struct {
+	Kind    string // "park" | "done"
+	At      string // park: "Unblocked" | "Closed" | "Close"
+	C       int    // park: the connection
+	TakeRes *c15Conn
+	TakeOK  bool
+	PV      any // done: the recovered panic
+}
+
 type c15Dir struct {
-	mu     sync.Mutex
-	inCall atomic.Bool // the director itself is inside a pool method: Close calls are synchronous
-	free   atomic.Bool // no more parking
-	cbs    []*c15CB
-	own    map[int]string // fresh | pool | out
-	events []string       // monitor events raised inside Close
+	mu      sync.Mutex
+	opGID   atomic.Int64 // the goroutine that is inside a pool method (0: none)
+	fine    atomic.Bool  // user code called by that goroutine is a park of its own
+	putConn int          // the argument of the Put in progress: Put uses it before it takes the lock
+	free    atomic.Bool  // no more parking
+	opEv    chan c15OpEv
+	opGate  chan struct{} // gate of the parked operation
+	cbEv    chan struct{} // a call-back has come to a gate
+	cbs     []*c15CB
+	own     map[int]string // fresh | pool | out
+	events  []string       // monitor events raised inside Close
 }
 
 type c15Conn struct {
@@ -168,13 +214,52 @@ type c15Conn struct {
 
 var c15ClosedCh = func() chan struct{} { c := make(chan struct{}); close(c); return c }()
 
+// c15GID is the id of the calling goroutine.
+func c15GID() int64 {
+	var buf [64]byte
+	b := buf[:runtime.Stack(buf[:], false)]
+	var id int64
+	for _, ch := range b[len("goroutine "):] {
+		if ch < '0' || ch > '9' {
+			break
+		}
+		id = id*10 + int64(ch-'0')
+	}
+	return id
+}
+
+func (d *c15Dir) isOp() bool {
+	id := d.opGID.Load()
+	return id != 0 && id == c15GID()
+}
+
+// userCode is entered by every method of a fake connection.  Called by the operation that holds
+// Pool.mu, in a fine-grained behaviour, it parks: the director decides when the user code returns.
+func (d *c15Dir) userCode(at string, f *c15Conn) {
+	if !d.fine.Load() || d.free.Load() || !d.isOp() {
+		return
+	}
+	d.mu.Lock()
+	if d.free.Load() || f.id == d.putConn {
+		d.mu.Unlock()
+		return
+	}
+	g := make(chan struct{})
+	d.opGate = g
+	d.mu.Unlock()
+	d.opEv <- c15OpEv{Kind: "park", At: at, C: f.id}
+	<-g
+}
+
 func (f *c15Conn) Closed() <-chan struct{} {
+	f.d.userCode("Closed", f)
 	f.d.mu.Lock()
 	defer f.d.mu.Unlock()
 	return f.closedCh
 }
 
 func (f *c15Conn) Unblocked() <-chan struct{} {
+	f.d.userCode("Unblocked", f)
 	f.d.mu.Lock()
 	defer f.d.mu.Unlock()
 	if !f.blocked {
@@ -210,12 +295,18 @@ func (f *c15Conn) doClose(byPool bool) {
 	}
 }
 
-// Close is what the pool calls.  Called from the director's own goroutine (inside Put, Take or
-// Pool.Close) it closes at once; called from anywhere else (the expiry call-back) it parks before
-// and after the closing so that "fired but not completed" is a state the director controls.
+// Close is what the pool calls.  Called by the goroutine that is inside Put, Take or Pool.Close it is
+// user code of that operation (a park in a fine-grained behaviour, then the closing); called from
+// anywhere else (the expiry call-back) it parks before and after the closing so that "fired but not
+// completed" is a state the director controls.
 func (f *c15Conn) Close() error {
 	d := f.d
-	if d.inCall.Load() || d.free.Load() {
+	if d.isOp() {
+		d.userCode("Close", f)
+		f.doClose(true)
+		return nil
+	}
+	if d.free.Load() {
 		f.doClose(true)
 		return nil
 	}
@@ -223,7 +314,11 @@ func (f *c15Conn) Close() error {
 	d.mu.Lock()
 	d.cbs = append(d.cbs, cb)
 	g := cb.gate
+	if d.free.Load() {
+		close(g)
+	}
 	d.mu.Unlock()
+	d.cbSignal()
 	<-g
 	f.doClose(true)
 	d.mu.Lock()
@@ -234,6 +329,7 @@ func (f *c15Conn) Close() error {
 		close(g)
 	}
 	d.mu.Unlock()
+	d.cbSignal()
 	<-g
 	d.mu.Lock()
 	cb.state = "returned"
@@ -241,11 +337,64 @@ func (f *c15Conn) Close() error {
 	return nil
 }
 
+func (d *c15Dir) cbSignal() {
+	select {
+	case d.cbEv <- struct{}{}:
+	default:
+	}
+}
+
+// c15Tick ticks in real time.  It is created and fed outside the bubbles: a select that includes it is
+// not durably blocking (the bubble's clock stands still) and is woken although everything in the bubble rests.
+var c15Tick = make(chan struct{}, 1)
+
+func c15Ticker() {
+	for {
+		time.Sleep(2 * time.Millisecond)
+		select {
+		case c15Tick <- struct{}{}:
+		default:
+		}
+	}
+}
+
+// c15RealNow is the wall clock (time.Now is the bubble's fake clock).
+func c15RealNow() time.Duration {
+	var tv syscall.Timeval
+	_ = syscall.Gettimeofday(&tv)
+	return time.Duration(tv.Sec)*time.Second + time.Duration(tv.Usec)*time.Microsecond
+}
+
+// c15WaitsForPoolMu: the goroutine is blocked in sync.Mutex.Lock called from drpcpool code.
+func c15WaitsForPoolMu(g *vf.G) bool {
+	if !strings.HasPrefix(g.State, "sync.Mutex.Lock") {
+		return false
+	}
+	for _, f := range g.Frames {
+		if strings.HasPrefix(f, "sync.") || strings.HasPrefix(f, "internal/") || strings.HasPrefix(f, "runtime.") {
+			continue
+		}
+		return strings.Contains(f, "drpc/drpcpool.")
+	}
+	return false
+}
+
 // ---- the replay --------------------------------------------------------------------------
 
 const c15Expiration = time.Hour
 
 // c15Replay runs inside a synctest bubble.
+//
+// A pool method runs on a goroutine of its own.  In a fine-grained behaviour that goroutine parks in
+// every method of a fake connection the pool calls while it holds Pool.mu, and the behaviour has
+// steps with the lock held: a timer fires, a call-back closes its connection.  A goroutine waiting for
+// a sync.Mutex is not durably blocked, so while the lock is held the director neither calls
+// synctest.Wait nor sleeps past a deadline (neither would return if a call-back of the code under test
+// waited for Pool.mu): it sleeps to exactly the deadline of the timer - it wakes at the instant the
+// timer fires - and then waits, in a select that includes a real-time ticker from outside the bubble
+// (so that it is not durably blocking either), until the call-back has reached a gate or, by a
+// goroutine census, waits for Pool.mu.  synctest.Wait is used again once the operation has left the
+// critical section.
 func c15Replay(b *c15Beh) (res c15Result) {
 	nconn := 0
 	if len(b.Steps) > 0 {
@@ -256,7 +405,8 @@ func c15Replay(b *c15Beh) (res c15Result) {
 		nkeys = len(b.Steps[0].KC)
 	}
 	maxEnts := len(b.Steps) + 1
-	d := &c15Dir{own: map[int]string{}}
+	d := &c15Dir{own: map[int]string{}, opEv: make(chan c15OpEv, 8), cbEv: make(chan struct{}, 16)}
+	d.fine.Store(b.Fine)
 	conns := map[int]*c15Conn{}
 	for i := 1; i <= nconn; i++ {
 		conns[i] = &c15Conn{d: d, id: i, closedCh: make(chan struct{})}
@@ -300,16 +450,6 @@ func c15Replay(b *c15Beh) (res c15Result) {
 			res.DivStep = step
 		}
 	}
-	// call runs a pool method on the director's goroutine; a panic is reported, not propagated
-	call := func(fn func()) (panicked any) {
-		d.inCall.Store(true)
-		defer func() {
-			d.inCall.Store(false)
-			panicked = recover()
-		}()
-		fn()
-		return nil
-	}
 	cbCount := func(state string) int {
 		d.mu.Lock()
 		defer d.mu.Unlock()
@@ -321,6 +461,11 @@ func c15Replay(b *c15Beh) (res c15Result) {
 		}
 		return n
 	}
+	cbStarted := func() int {
+		d.mu.Lock()
+		defer d.mu.Unlock()
+		return len(d.cbs)
+	}
 	findCB := func(c int, state string) *c15CB {
 		d.mu.Lock()
 		defer d.mu.Unlock()
@@ -331,13 +476,143 @@ func c15Replay(b *c15Beh) (res c15Result) {
 		}
 		return nil
 	}
-	release := func(cb *c15CB) {
+	cbState := func(cb *c15CB) string {
 		d.mu.Lock()
-		g := cb.gate
-		d.mu.Unlock()
-		close(g)
-		synctest.Wait()
+		defer d.mu.Unlock()
+		return cb.state
 	}
+
+	// ---- the operation in progress
+	type opInfo struct {
+		kind string // Put | Take | PoolClose
+		e    int    // Put: the model's entry id
+		step int
+	}
+	var cur *opInfo // non-nil: a pool method has been started and its "done" has not been processed
+	// openGates: from now on nothing parks; whoever is parked goes on
+	openGates := func() {
+		d.mu.Lock()
+		d.free.Store(true)
+		for _, cb := range d.cbs {
+			if cb.state != "returned" {
+				select {
+				case <-cb.gate:
+				default:
+					close(cb.gate)
+				}
+			}
+		}
+		if d.opGate != nil {
+			select {
+			case <-d.opGate:
+			default:
+				close(d.opGate)
+			}
+		}
+		d.mu.Unlock()
+	}
+	// await waits - in a select that is not durably blocking: the bubble's clock must not move, and synctest.Wait
+	// might not return - until cond holds (looked at whenever a call-back comes to a gate), or census holds on a
+	// snapshot of all goroutines (taken at every real-time tick), or limit of real time has passed.
+	// 1: cond, 2: census, 0: neither.
+	await := func(cond func() bool, census func([]vf.G) bool, limit time.Duration) int {
+		t0 := c15RealNow()
+		for {
+			if cond() {
+				return 1
+			}
+			select {
+			case <-d.cbEv:
+			case <-c15Tick:
+				if census != nil && census(vf.Census()) {
+					if cond() {
+						return 1
+					}
+					return 2
+				}
+				if c15RealNow()-t0 > limit {
+					return 0
+				}
+			}
+		}
+	}
+	// fireExact lets the clock reach the deadline dl of one timer while an operation holds Pool.mu: the director
+	// wakes at that very instant and waits until the call-back has entered the fake Close (1) or waits for Pool.mu
+	// (2).  0: no call-back - the bubble's root goroutine, which runs the timers that are due, is parked again and
+	// there is no goroutine of the pool beyond the call-backs that were parked before.
+	fireExact := func(dl time.Duration) int {
+		before := cbStarted()
+		parked := cbCount("A") + cbCount("B")
+		time.Sleep(dl - now())
+		verdict := 0
+		r := await(func() bool { return cbStarted() > before }, func(gs []vf.G) bool {
+			op := d.opGID.Load()
+			n, rootParked := 0, false
+			for i := range gs {
+				g := &gs[i]
+				if strings.HasPrefix(g.State, "synctest.Run") {
+					rootParked = true
+				}
+				if g.ID == op || !g.Has("drpc/drpcpool.") {
+					continue
+				}
+				n++
+				if c15WaitsForPoolMu(g) {
+					verdict = 2
+					return true
+				}
+			}
+			return rootParked && n <= parked
+		}, 5*time.Second)
+		if r == 2 {
+			return verdict
+		}
+		return r
+	}
+	// waitOp waits for the next event of the operation in progress.  Should the operation wait for Pool.mu
+	// because a call-back is parked in user code with the lock held, the call-backs are let go.
+	waitOp := func(step int) (ev c15OpEv, ok bool) {
+		t0 := c15RealNow()
+		for {
+			select {
+			case ev = <-d.opEv:
+				return ev, true
+			case <-c15Tick:
+				if c15RealNow()-t0 > 60*time.Second {
+					return ev, false
+				}
+				if d.free.Load() {
+					continue
+				}
+				id := d.opGID.Load()
+				gs := vf.Census()
+				for i := range gs {
+					if gs[i].ID == id && c15WaitsForPoolMu(&gs[i]) {
+						diverge(step, "lock", "the operation waits for Pool.mu while expiry call-backs are parked in user code")
+						openGates()
+						break
+					}
+				}
+			}
+		}
+	}
+	startOp := func(o *opInfo, fn func(ev *c15OpEv)) {
+		cur = o
+		ready := make(chan struct{})
+		go func() {
+			d.opGID.Store(c15GID())
+			close(ready)
+			ev := c15OpEv{Kind: "done"}
+			defer func() {
+				ev.PV = recover()
+				d.opGID.Store(0)
+				d.opEv <- ev
+			}()
+			fn(&ev)
+		}()
+		<-ready
+	}
+
 	// the property's monitors on the real pool; route is the specification's account of how the
 	// lists got inconsistent (empty when they are consistent or the replay has left the specification)
 	var prevRt []string
@@ -347,8 +622,24 @@ func c15Replay(b *c15Beh) (res c15Result) {
 		}
 		return c15RouteSuffix(prevRt)
 	}
+	// observe needs Pool.mu: only between critical sections.  While call-backs are parked it is made like a pool
+	// method (should one of them be parked with the lock held, waitOp lets them go)
 	observe := func(step int) (oc, ol int, kc, kl map[int]int) {
-		oc, ol, kc, kl = pool.VerifCounts()
+		if !d.free.Load() && cbCount("A")+cbCount("B") > 0 {
+			startOp(&opInfo{kind: "observe", step: step}, func(*c15OpEv) { oc, ol, kc, kl = pool.VerifCounts() })
+			for cur != nil {
+				ev, ok := waitOp(step)
+				if !ok {
+					res.Problem = "a pool method does not return"
+					return
+				}
+				if ev.Kind == "done" {
+					cur = nil
+				}
+			}
+		} else {
+			oc, ol, kc, kl = pool.VerifCounts()
+		}
 		if ol > maxEnts {
 			ol = -1
 		}
@@ -372,6 +663,10 @@ func c15Replay(b *c15Beh) (res c15Result) {
 				}
 			}
 		}
+		return
+	}
+	// closeEvents: the pool closed a connection that a caller holds (raised inside the fake Close)
+	closeEvents := func(step int) {
 		d.mu.Lock()
 		evs := d.events
 		d.events = nil
@@ -381,7 +676,62 @@ func c15Replay(b *c15Beh) (res c15Result) {
 				viol("connection closed by the pool while handed out"+suffix(), step, ev)
 			}
 		}
-		return
+	}
+	panicked := false
+	// opDone: the pool method has returned (the monitors on what Take hands out; the comparison with the
+	// specification's result is the caller's)
+	opDone := func(ev *c15OpEv) (got int) {
+		o := cur
+		cur = nil
+		d.mu.Lock()
+		d.opGate = nil
+		d.putConn = 0
+		d.mu.Unlock()
+		if ev.PV != nil {
+			if !panicked {
+				viol(fmt.Sprintf("panic in %s%s", o.kind, suffix()), o.step, fmt.Sprint(ev.PV))
+			}
+			panicked = true
+			return 0
+		}
+		if o.kind == "Put" && b.Exp && o.e > 0 {
+			deadline[o.e] = now() + c15Expiration // Put starts the timer just before it returns; the clock has not moved since
+		}
+		if o.kind != "Take" {
+			return 0
+		}
+		i := o.step
+		if ev.TakeOK && ev.TakeRes != nil {
+			got = ev.TakeRes.id
+			c := ev.TakeRes
+			d.mu.Lock()
+			closed, blocked, own := c.isClosed, c.blocked, d.own[c.id]
+			expiring := false
+			for _, cb := range d.cbs {
+				if cb.conn == c && cb.state != "returned" {
+					expiring = true
+				}
+			}
+			d.own[c.id] = "out"
+			d.mu.Unlock()
+			if closed {
+				viol("Take returned a closed connection"+suffix(), i, c.String())
+			}
+			if blocked {
+				viol("Take returned a blocked connection"+suffix(), i, c.String())
+			}
+			if expiring {
+				viol("Take returned a connection already chosen for expiry"+suffix(), i, c.String())
+			}
+			if own == "out" {
+				viol("connection handed to two callers"+suffix(), i, c.String())
+			} else if own != "pool" {
+				viol("Take returned a connection that was never put"+suffix(), i, c.String())
+			}
+		} else if ev.TakeOK {
+			viol("Take returned (nil, true)"+suffix(), i, "")
+		}
+		return got
 	}
 
 	// Once the real pool has left the specification (diverged) the remaining steps are still made,
@@ -390,18 +740,20 @@ func c15Replay(b *c15Beh) (res c15Result) {
 	freed := false
 	enterFree := func() {
 		freed = true
-		d.free.Store(true)
-		d.mu.Lock()
-		for _, cb := range d.cbs {
-			if cb.state != "returned" {
-				select {
-				case <-cb.gate:
-				default:
-					close(cb.gate)
+		openGates()
+		if cur != nil { // the operation inside the critical section runs to its end
+			step := cur.step
+			for cur != nil {
+				ev, ok := waitOp(step)
+				if !ok {
+					res.Problem = "a pool method does not return"
+					return
+				}
+				if ev.Kind == "done" {
+					opDone(&ev)
 				}
 			}
 		}
-		d.mu.Unlock()
 		synctest.Wait()
 	}
 	ownOf := func(c int) string {
@@ -409,50 +761,90 @@ func c15Replay(b *c15Beh) (res c15Result) {
 		defer d.mu.Unlock()
 		return d.own[c]
 	}
-	panicked := false
+	lockHeld := func() bool { return cur != nil } // by a parked operation
+
 	for i := range b.Steps {
 		s := &b.Steps[i]
 		prevRt = s.Rt
 		if diverged && !freed {
 			enterFree()
 		}
-		var takeRes *c15Conn
-		var takeOK bool
-		var pv any
+		if res.Problem != "" || panicked {
+			break
+		}
+		var ev *c15OpEv // the event of the operation that this step starts or continues
 		switch s.A {
-		case "Put":
-			if diverged && ownOf(s.C) == "pool" {
-				continue // the caller does not own it
-			}
-			// a distinct fake time for every Put, strictly before the earliest pending deadline
-			gap := time.Second
-			var prevTm []string
-			if i > 0 {
-				prevTm = b.Steps[i-1].Tm
-			}
-			if m, ok := armed(prevTm); ok && !diverged {
-				if room := m - now(); room/4 < gap {
-					gap = room / 4
-				}
-			}
-			if gap <= 0 {
-				res.Problem = "no room left before the next deadline"
+		case "Put", "Take", "PoolClose":
+			if cur != nil {
+				res.Problem = "a pool method is called while another holds the lock"
 				goto finish
 			}
-			time.Sleep(gap)
-			synctest.Wait()
-			c := conns[s.C]
-			d.mu.Lock()
-			d.own[s.C] = "pool"
-			d.mu.Unlock()
-			pv = call(func() { pool.Put(s.K, c) })
-			if b.Exp && s.E > 0 {
-				deadline[s.E] = now() + c15Expiration
+			o := &opInfo{kind: s.A, step: i}
+			switch s.A {
+			case "Put":
+				if diverged && ownOf(s.C) == "pool" {
+					continue // the caller does not own it
+				}
+				// a distinct fake time for every Put, strictly before the earliest pending deadline
+				gap := time.Second
+				var prevTm []string
+				if i > 0 {
+					prevTm = b.Steps[i-1].Tm
+				}
+				if m, ok := armed(prevTm); ok && !diverged {
+					if room := m - now(); room/4 < gap {
+						gap = room / 4
+					}
+				}
+				if gap <= 0 {
+					res.Problem = "no room left before the next deadline"
+					goto finish
+				}
+				time.Sleep(gap)
+				synctest.Wait()
+				c := conns[s.C]
+				d.mu.Lock()
+				d.own[s.C] = "pool"
+				d.putConn = s.C
+				d.mu.Unlock()
+				o.e = s.E
+				k := s.K
+				startOp(o, func(*c15OpEv) { pool.Put(k, c) })
+			case "Take":
+				k := s.K
+				startOp(o, func(ev *c15OpEv) { ev.TakeRes, ev.TakeOK = pool.Take(k) })
+			case "PoolClose":
+				startOp(o, func(*c15OpEv) { _ = pool.Close() })
 			}
-		case "Take":
-			pv = call(func() { takeRes, takeOK = pool.Take(s.K) })
-		case "PoolClose":
-			pv = call(func() { _ = pool.Close() })
+			e, ok := waitOp(i)
+			if !ok {
+				res.Problem = "a pool method does not return"
+				goto finish
+			}
+			ev = &e
+		case "Return":
+			if diverged {
+				continue // the operation has run to its end already
+			}
+			if cur == nil {
+				res.Problem = "Return without an operation in progress"
+				goto finish
+			}
+			d.mu.Lock()
+			g := d.opGate
+			d.opGate = nil
+			d.mu.Unlock()
+			if g == nil {
+				res.Problem = "Return without a parked operation"
+				goto finish
+			}
+			close(g)
+			e, ok := waitOp(i)
+			if !ok {
+				res.Problem = "a pool method does not return"
+				goto finish
+			}
+			ev = &e
 		case "TimerFire":
 			dl, ok := deadline[s.E]
 			if diverged {
@@ -465,6 +857,21 @@ func c15Replay(b *c15Beh) (res c15Result) {
 			if !ok {
 				res.Problem = "TimerFire of an entry without a deadline"
 				goto finish
+			}
+			if lockHeld() {
+				// the director wakes at the very instant of the deadline; the call-back comes to rest in the fake Close
+				// (gate A) or, with another order of its statements, waiting for Pool.mu
+				if dl <= now() {
+					res.Problem = "deadline already reached"
+					goto finish
+				}
+				switch fireExact(dl) {
+				case 2:
+					diverge(i, "expiry call-backs", fmt.Sprintf("the timer of c%d has fired while %s holds Pool.mu and its call-back waits for the lock before it has closed the connection", s.C, cur.kind))
+				case 0:
+					diverge(i, "expiry call-backs", fmt.Sprintf("the timer of c%d has reached its deadline while %s holds Pool.mu and no call-back has called Close", s.C, cur.kind))
+				}
+				break
 			}
 			h := time.Millisecond
 			if m, ok := armed(s.Tm); ok { // the next one still armed afterwards
@@ -488,7 +895,19 @@ func c15Replay(b *c15Beh) (res c15Result) {
 				diverge(i, "expiry call-backs", "no expiry call-back of the connection is parked where the specification has it ("+s.A+")")
 				continue
 			}
-			release(cb)
+			d.mu.Lock()
+			g := cb.gate
+			d.mu.Unlock()
+			close(g)
+			if lockHeld() {
+				// the fake Close goes from gate A to gate B
+				if s.A != "ExpiryClose" || await(func() bool { return cbState(cb) == "B" }, nil, 20*time.Second) != 1 {
+					res.Problem = "an expiry call-back released inside a critical section did not come to rest"
+					goto finish
+				}
+			} else {
+				synctest.Wait()
+			}
 		case "ConnClose":
 			conns[s.C].doClose(false)
 		case "Block":
@@ -516,60 +935,53 @@ func c15Replay(b *c15Beh) (res c15Result) {
 			res.Steps++
 		}
 
-		if pv != nil {
-			panicked = true
-			viol(fmt.Sprintf("panic in %s%s", s.A, suffix()), i, fmt.Sprint(pv))
-			if s.R != "panic" {
-				diverge(i, "panic", "panic")
-			}
-			goto finish
-		} else if s.R == "panic" && !diverged {
-			diverge(i, "no panic", "the specification demands a panic")
-		}
-
-		if s.A == "Take" {
-			got := 0
-			if takeOK && takeRes != nil {
-				got = takeRes.id
-				c := takeRes
-				d.mu.Lock()
-				closed, blocked, own := c.isClosed, c.blocked, d.own[c.id]
-				expiring := false
-				for _, cb := range d.cbs {
-					if cb.conn == c && cb.state != "returned" {
-						expiring = true
+		if ev != nil {
+			wantPark := s.R == "parked"
+			if ev.Kind == "park" {
+				if diverged {
+					// (free mode does not park; a stale event)
+				} else if !wantPark {
+					diverge(i, "user code under the lock", fmt.Sprintf("%s calls c%d.%s() with Pool.mu held; the specification has the operation end here", cur.kind, ev.C, ev.At))
+				} else if ev.At != s.Pk.At || ev.C != s.Pk.C {
+					diverge(i, "user code under the lock", fmt.Sprintf("%s calls c%d.%s() with Pool.mu held, specification c%d.%s()", cur.kind, ev.C, ev.At, s.Pk.C, s.Pk.At))
+				}
+				if diverged {
+					continue
+				}
+			} else {
+				kind := cur.kind
+				cur.step = i
+				got := opDone(ev)
+				synctest.Wait() // the lock is free: whoever waited for it goes on to its next gate
+				if ev.PV != nil {
+					if s.R != "panic" {
+						diverge(i, "panic", "panic")
+					}
+					goto finish
+				} else if s.R == "panic" && !diverged {
+					diverge(i, "no panic", "the specification demands a panic")
+				}
+				if wantPark && !diverged {
+					diverge(i, "user code under the lock", fmt.Sprintf("%s returns; the specification has it call c%d.%s() with Pool.mu held", kind, s.Pk.C, s.Pk.At))
+				} else if kind == "Take" {
+					if want := s.R; !diverged && fmt.Sprint(got) != want {
+						// the specification's answer is demanded only where it describes consistent lists; past a
+						// recorded defect route it describes the defect, and a difference is a conformance warning
+						if len(s.Rt) == 0 {
+							viol("Take result differs from the specification", i, fmt.Sprintf("got c%d, demanded c%s", got, want))
+						}
+						diverge(i, "Take result", fmt.Sprintf("Take returned c%d, specification c%s", got, want))
 					}
 				}
-				d.own[c.id] = "out"
-				d.mu.Unlock()
-				if closed {
-					viol("Take returned a closed connection"+suffix(), i, c.String())
-				}
-				if blocked {
-					viol("Take returned a blocked connection"+suffix(), i, c.String())
-				}
-				if expiring {
-					viol("Take returned a connection already chosen for expiry"+suffix(), i, c.String())
-				}
-				if own == "out" {
-					viol("connection handed to two callers"+suffix(), i, c.String())
-				} else if own != "pool" {
-					viol("Take returned a connection that was never put"+suffix(), i, c.String())
-				}
-			} else if takeOK {
-				viol("Take returned (nil, true)"+suffix(), i, "")
-			}
-			if want := s.R; !diverged && fmt.Sprint(got) != want {
-				// the specification's answer is demanded only where it describes consistent lists; past a
-				// recorded defect route it describes the defect, and a difference is a conformance warning
-				if len(s.Rt) == 0 {
-					viol("Take result differs from the specification", i, fmt.Sprintf("got c%d, demanded c%s", got, want))
-				}
-				diverge(i, "Take result", fmt.Sprintf("Take returned c%d, specification c%s", got, want))
 			}
 		}
 
-		oc, ol, kc, kl := observe(i)
+		closeEvents(i)
+		var oc, ol int
+		var kc, kl map[int]int
+		if !lockHeld() {
+			oc, ol, kc, kl = observe(i)
+		}
 		if diverged {
 			continue
 		}
@@ -590,21 +1002,23 @@ func c15Replay(b *c15Beh) (res c15Result) {
 			diverge(i, "Close calls", callsDiffer)
 			continue
 		}
-		if oc != s.OC || ol != s.OL {
-			diverge(i, "list counts", fmt.Sprintf("order count/len %d/%d, specification %d/%d", oc, ol, s.OC, s.OL))
-			continue
-		}
-		keysDiffer := false
-		for k := 1; k <= nkeys; k++ {
-			c1, in := kc[k]
-			if in != s.Kin[k-1] || (in && (c1 != s.KC[k-1] || kl[k] != s.KL[k-1])) {
-				diverge(i, "list counts", fmt.Sprintf("key %d present=%v count/len %d/%d, specification %v %d/%d", k, in, c1, kl[k], s.Kin[k-1], s.KC[k-1], s.KL[k-1]))
-				keysDiffer = true
-				break
+		if !lockHeld() {
+			if oc != s.OC || ol != s.OL {
+				diverge(i, "list counts", fmt.Sprintf("order count/len %d/%d, specification %d/%d", oc, ol, s.OC, s.OL))
+				continue
 			}
-		}
-		if keysDiffer {
-			continue
+			keysDiffer := false
+			for k := 1; k <= nkeys; k++ {
+				c1, in := kc[k]
+				if in != s.Kin[k-1] || (in && (c1 != s.KC[k-1] || kl[k] != s.KL[k-1])) {
+					diverge(i, "list counts", fmt.Sprintf("key %d present=%v count/len %d/%d, specification %v %d/%d", k, in, c1, kl[k], s.Kin[k-1], s.KC[k-1], s.KL[k-1]))
+					keysDiffer = true
+					break
+				}
+			}
+			if keysDiffer {
+				continue
+			}
 		}
 		{
 			wantA, wantB := 0, 0
@@ -627,8 +1041,8 @@ finish:
 	last := len(b.Steps) - 1
 	// Enabledness: let time pass.  Exactly the timers the specification has armed (or fired and not yet
 	// closing) may produce a call-back; one that fires although the specification has it stopped is a timer
-	// the real pool failed to stop.
-	if !diverged && !panicked && res.Problem == "" && b.Exp && last >= 0 {
+	// the real pool failed to stop.  (Not with the lock held: the behaviour is a prefix of others.)
+	if !diverged && !panicked && res.Problem == "" && b.Exp && last >= 0 && !lockHeld() {
 		connOf := map[int]int{}
 		for i := range b.Steps {
 			if b.Steps[i].A == "Put" && b.Steps[i].E > 0 {
@@ -641,19 +1055,75 @@ finish:
 				want[connOf[e+1]]++
 			}
 		}
-		time.Sleep(3 * c15Expiration)
-		synctest.Wait()
-		got := map[int]int{}
-		d.mu.Lock()
-		for _, cb := range d.cbs {
-			if cb.state == "A" {
-				got[cb.conn.id]++
+		// One deadline at a time, each at its exact instant: a sleep past the deadline of a timer whose call-back
+		// waits for Pool.mu (held by a call-back parked in user code, say) would not return.  The lock is free when
+		// the clock moves (observe has taken it since the last call-back parked), so the call-back comes to rest.
+		type due struct {
+			c  int
+			dl time.Duration
+		}
+		var dues []due
+		for e, t := range b.Steps[last].Tm {
+			if dl, ok := deadline[e+1]; ok && t == "armed" && dl > now() {
+				dues = append(dues, due{connOf[e+1], dl})
 			}
 		}
-		d.mu.Unlock()
-		if fmt.Sprint(got) != fmt.Sprint(want) {
+		sort.Slice(dues, func(i, j int) bool { return dues[i].dl < dues[j].dl })
+		for _, du := range dues {
+			before := cbStarted()
+			time.Sleep(du.dl - now())
+			synctest.Wait()
+			if cbStarted() == before {
+				diverge(last, "pending timers", fmt.Sprintf("when time passes, no expiry call-back starts for c%d; the specification has its timer pending", du.c))
+				break
+			}
+			observe(last)
+			if diverged || res.Problem != "" {
+				break
+			}
+		}
+		got := map[int]int{}
+		if !diverged && res.Problem == "" {
+			time.Sleep(3 * c15Expiration)
+			synctest.Wait()
+			d.mu.Lock()
+			for _, cb := range d.cbs {
+				if cb.state == "A" {
+					got[cb.conn.id]++
+				}
+			}
+			d.mu.Unlock()
+		}
+		if !diverged && res.Problem == "" && fmt.Sprint(got) != fmt.Sprint(want) {
 			diverge(last, "pending timers", fmt.Sprintf("when time passes, expiry call-backs start for connections %v; the specification has timers pending for %v", got, want))
 		}
+	}
+	if res.Problem == "a pool method does not return" {
+		return res
+	}
+	// the director's own calls from here on: operations run to their end (a behaviour that ends inside a critical
+	// section is a prefix of others)
+	if cur != nil {
+		enterFree()
+		if res.Problem == "a pool method does not return" {
+			return res
+		}
+	}
+	d.fine.Store(false)
+	// call runs a pool method to its end
+	call := func(kind string, fn func()) bool {
+		startOp(&opInfo{kind: kind, step: -1}, func(*c15OpEv) { fn() })
+		ev, ok := waitOp(-1)
+		for ok && ev.Kind != "done" {
+			ev, ok = waitOp(-1)
+		}
+		if !ok {
+			res.Problem = "a pool method does not return"
+			return false
+		}
+		opDone(&ev)
+		synctest.Wait()
+		return ev.PV == nil
 	}
 	// Past a divergence the specification has nothing more to say; the director goes on with calls of
 	// its own and the bounds are probed directly: a fresh connection is put under every key (so that
@@ -670,39 +1140,46 @@ finish:
 			d.mu.Unlock()
 			time.Sleep(time.Second)
 			synctest.Wait()
-			if pv := call(func() { pool.Put(k, c) }); pv != nil {
-				viol("panic in Put"+suffix(), -1, fmt.Sprint(pv))
-				panicked = true
+			if !call("Put", func() { pool.Put(k, c) }) {
 				return
 			}
+			closeEvents(-1)
 			observe(-1)
 		}
 		probing := diverged && !panicked && res.Problem == ""
 		if probing && !freed {
-			for k := 1; k <= nkeys && !panicked; k++ {
+			for k := 1; k <= nkeys && !panicked && res.Problem == ""; k++ {
 				probePut(k)
 			}
 		}
 		// run everything to completion: no more parking
-		enterFree()
+		if !freed {
+			enterFree()
+		}
+		if res.Problem == "a pool method does not return" {
+			return res
+		}
 		if probing {
 			m := b.Kcap
 			if b.Cap > m {
 				m = b.Cap
 			}
 			for k := 1; k <= nkeys; k++ {
-				for j := 0; j < m+2 && !panicked; j++ {
+				for j := 0; j < m+2 && !panicked && res.Problem == ""; j++ {
 					probePut(k)
 				}
 			}
 		}
 	}
-	if pv := call(func() { _ = pool.Close() }); pv != nil && !panicked {
-		viol("panic in PoolClose"+suffix(), last, fmt.Sprint(pv))
-		panicked = true
+	if res.Problem == "a pool method does not return" {
+		return res
+	}
+	if !call("PoolClose", func() { _ = pool.Close() }) && res.Problem == "a pool method does not return" {
+		return res
 	}
 	time.Sleep(3 * c15Expiration)
 	synctest.Wait()
+	closeEvents(-1)
 	observe(-1)
 	if !panicked && res.Problem == "" {
 		d.mu.Lock()
@@ -734,40 +1211,67 @@ type c15Variant struct {
 // c15Probe runs inside a bubble.
 func c15Probe() (v c15Variant) {
 	defer func() { _ = recover() }()
-	d := &c15Dir{own: map[int]string{}}
+	d := &c15Dir{own: map[int]string{}, opEv: make(chan c15OpEv, 8), cbEv: make(chan struct{}, 16)}
 	mk := func(i int) *c15Conn { return &c15Conn{d: d, id: i, closedCh: make(chan struct{})} }
 	{
 		pool := drpcpool.New[int, *c15Conn](drpcpool.Options{Capacity: 1})
-		d.inCall.Store(true)
+		d.opGID.Store(c15GID())
 		pool.Put(1, mk(1))
 		pool.Put(1, mk(2))
 		_, _, kc, _ := pool.VerifCounts()
 		_, v.OwnList = kc[1]
 		_ = pool.Close()
-		d.inCall.Store(false)
+		d.opGID.Store(0)
 	}
 	{
 		pool := drpcpool.New[int, *c15Conn](drpcpool.Options{Expiration: c15Expiration})
-		d.inCall.Store(true)
+		d.opGID.Store(c15GID())
 		pool.Put(1, mk(3))
-		d.inCall.Store(false)
+		d.opGID.Store(0)
 		time.Sleep(c15Expiration + time.Millisecond)
 		synctest.Wait()
-		d.inCall.Store(true)
-		pool.Take(1)
-		d.inCall.Store(false)
-		d.free.Store(true)
-		d.mu.Lock()
-		for _, cb := range d.cbs {
-			close(cb.gate)
+		letGo := func() {
+			d.mu.Lock()
+			if !d.free.Load() {
+				d.free.Store(true)
+				for _, cb := range d.cbs {
+					close(cb.gate)
+				}
+			}
+			d.mu.Unlock()
 		}
-		d.mu.Unlock()
+		// (on a goroutine of its own: should the parked call-back hold Pool.mu, it is let go)
+		done := make(chan struct{})
+		go func() {
+			defer close(done)
+			d.opGID.Store(c15GID())
+			pool.Take(1)
+			d.opGID.Store(0)
+		}()
+		t0 := c15RealNow()
+	wait:
+		for {
+			select {
+			case <-done:
+				break wait
+			case <-c15Tick:
+				if c15RealNow()-t0 > 50*time.Millisecond {
+					gs := vf.Census()
+					for i := range gs {
+						if c15WaitsForPoolMu(&gs[i]) {
+							letGo()
+						}
+					}
+				}
+			}
+		}
+		letGo()
 		synctest.Wait()
 		oc, _, _, _ := pool.VerifCounts()
 		v.UnlinkOnce = oc == 0
-		d.inCall.Store(true)
+		d.opGID.Store(c15GID())
 		_ = pool.Close()
-		d.inCall.Store(false)
+		d.opGID.Store(0)
 	}
 	return v
 }
@@ -776,6 +1280,7 @@ func c15Probe() (v c15Variant) {
 func c15ReplayMain(args []string) int {
 	testing.Init()
 	os.Args = os.Args[:1]
+	go c15Ticker()
 	out := bufio.NewWriterSize(os.Stdout, 1<<16)
 	test := func(t *testing.T) {
 		in := bufio.NewReaderSize(os.Stdin, 1<<20)
